@@ -363,3 +363,42 @@ def owners(mod, node):
             else:
                 work.append(f2)
     return out
+
+
+# ---------------------------------------------------------------- class invariants from constructor refusals
+
+def ctor_invariants(repo, ci):
+    """Conditions a constructed object can never satisfy: for every `if C: raise ...` of the constructor whose
+    condition reads only attributes of self that nothing but the constructor stores, the literals of C (taken true)
+    can never hold together later. Returns a list of frozensets of (text, polarity) literals."""
+    inits = [c.methods["__init__"] for c in repo.mro(ci) if "__init__" in c.methods]
+    if not inits:
+        return []
+    ctor_only = {}
+
+    def is_ctor_only(attr):
+        if attr not in ctor_only:
+            ok = True
+            for m in repo.tk_modules():
+                for n in ast.walk(m.tree):
+                    if isinstance(n, ast.Attribute) and n.attr == attr and isinstance(n.ctx, (ast.Store, ast.Del)):
+                        q = n
+                        while q is not None and not isinstance(q, ast.FunctionDef):
+                            q = getattr(q, "_parent", None)
+                        if q is None or q.name != "__init__":
+                            ok = False
+            ctor_only[attr] = ok
+        return ctor_only[attr]
+    out = []
+    for n in [x for init in inits for x in ast.walk(init)]:
+        if isinstance(n, ast.If) and n.body and isinstance(n.body[-1], ast.Raise) and not n.orelse:
+            lits = literals(n.test, True)
+            if not lits:
+                continue
+            attrs = {x.attr for x in ast.walk(n.test) if isinstance(x, ast.Attribute) and isinstance(x.value, ast.Name)
+                     and x.value.id == "self"}
+            names = {x.id for x in ast.walk(n.test) if isinstance(x, ast.Name)} - {"self", "None", "True", "False", "isinstance", "int", "len"}
+            if names or not attrs or not all(is_ctor_only(a) for a in attrs):
+                continue
+            out.append(frozenset(lits))
+    return out
